@@ -164,10 +164,14 @@ def generate(run_seed, index, tier):
         for _ in range(ngates):
             if r.random() < 0.05:
                 ops.append({'op': 'c_probe'})
+            if nmeas == 0 and r.random() < 0.15:
+                ops.append({'op': 'c_unitary'})
             x = r.random()
             if x < 0.5:
                 ops.append(_gate_op(r, n, 'c_'))
             elif x < 0.85 or nmeas == 0:
+                if nmeas == 0 and r.random() < 0.3:
+                    ops.append({'op': 'c_unitary'})
                 o = {'op': 'c_measure', 'S': _rand_subset(r, n)}
                 if r.random() < 0.25:
                     o['seed'] = r.getrandbits(32)
@@ -656,6 +660,16 @@ class Sim:
                 raise Violation('unexpected_exception', 'Circuit.register_custom_gate', f'{type(e).__name__}: {e}')
             self.desc.append(('cc', gm, op['bit'], U, cg))
             self.shape.append('c')
+        elif k == 'c_unitary':
+            # a user inspects the unitary of the gates added so far (only possible while the circuit has no measure gate yet) and
+            # goes on building: nothing cached by that call may survive the later addition of measure / custom gates
+            if self.desc and all(x[0] == 'gate' for x in self.desc):
+                try:
+                    c.to_unitary()
+                except Exception as e:
+                    raise Violation('unexpected_exception', 'Circuit.to_unitary', f'{type(e).__name__}: {e}')
+                self.bump('to_unitary_before_measure_gates')
+                self.shape.append('u')
         elif k == 'c_probe':
             try:
                 c.probe_gate() if hasattr(c, 'probe_gate') else None
